@@ -228,5 +228,5 @@ func cmdVerify(args []string) {
 	}
 }
 
-func cmdCheck(args []string)  { fmt.Println("not yet"); os.Exit(2) }
-func cmdReplay(args []string) { fmt.Println("not yet"); os.Exit(2) }
+
+
